@@ -1,18 +1,24 @@
 /-
 C05 — parameters are decoded as the inverse of OpenAPI style serialisation.
-Property theorems only (model and specification: KinModel/Style.lean; helper lemmas: KinModel/Lemmas/C05*.lean).
+Property theorems only (models and specification: KinModel/Style.lean, StyleNest.lean, StyleContent.lean; helper
+lemmas: KinModel/Lemmas/C05*.lean).
 
 Full-strength goal (kept visible):
-  ∀ legal cell c, leaf schema l, texts t with `encodable c name t`:
-      decodeStyled impl c name req (encode c name t) (.leaf l) = ⟨the value t stands for, true, none⟩
-  ∧ validateParameter p r = validateSpec p r.
-What is proved: the round trip per location and shape for *both* flavours (code / specification) under the
-explicit `Encodable` side conditions; `validateParameter = validateSpec` is NOT a theorem of the pinned code:
-it fails inside three decidable exclusion classes, each with a kernel-checked witness below
-(CookieExplode #31, EnumGoType #42, QueryObjAbsent); outside them the two flavours agree
-layer by layer (`parsePrim_eq_specPrim` — full strength since the repair of F-C05-3 —, `visitPS_impl_eq_spec_partial`,
-`cookieArr_flavour_partial`, `queryObj_absent_partial`; the object builder `makeObject` has no flavour any more since the
-repair of F-C05-4 in 997bea5: `makeObject_lookup_addl`, `addl_shadow_regression`).
+  ∀ legal cell c, schema s, texts t with `encodable c name t`:
+      decodeStyled impl c name req (encode c name t) s = ⟨the value t stands for, true, none⟩
+  ∧ ∀ p r, validateParameter p r = validateSpec p r.
+What is proved:
+  * the round trip per location and shape for *both* flavours (code / specification) under the explicit `Encodable`
+    side conditions, lifted through allOf / anyOf / oneOf (`decodeStyled_anyOf_first`, `…_oneOf_last`, `…_allOf_*`),
+    and for nested deepObject at every depth (`nest_roundtrip`);
+  * `validateParameter = validateSpec` is NOT a theorem of the pinned code: it fails inside decidable exclusion classes,
+    each with a kernel-checked witness below (CookieExplode #31, EnumGoType #42, QueryObjAbsent, QueryObjNoProps,
+    DeepKeyJunk, UntypedSchema; for content-described parameters ContentMissing, ContentCookieAbsent). Outside them it IS
+    proved: `decodeStyled_impl_eq_spec_partial` (every schema, compositions included), `validate_eq_spec_partial`
+    (every single-leaf schema), `validate_eq_spec_enumfree_partial` (every composition without enums),
+    `respHeader_eq_spec_partial`, `content_flavour_partial`;
+  * repaired and therefore class-free: primitive texts (`parsePrim_eq_specPrim`, F-C05-3 / 53dfa1b) and the object
+    builder (`makeObject` has one flavour, `makeObject_lookup_addl`, `addl_shadow_regression`, F-C05-4 / 997bea5).
 -/
 import KinModel.Style
 import KinModel.Lemmas.C05Str
